@@ -391,7 +391,7 @@ impl<'a> Gen<'a> {
         match th.st {
             TSt::Gone => return,
             TSt::Push | TSt::Exiting => {
-                cands.push((14, Act::Push(t)));
+                cands.push((if self.coll == CollSt::Check && self.prof.name == "exit" { 40 } else { 14 }, Act::Push(t)));
                 return;
             }
             TSt::Ready => {}
@@ -550,7 +550,7 @@ impl<'a> Gen<'a> {
             }
         }
         if self.prof.exits && th.nest.is_empty() && th.scoped.is_empty() && self.threads.values().filter(|x| x.st != TSt::Gone && x.st != TSt::Exiting).count() > 1 {
-            cands.push((2, Act::Exit(t)));
+            cands.push((if self.coll == CollSt::Check && self.prof.name == "exit" { 14 } else { 2 }, Act::Exit(t)));
         }
     }
 
@@ -684,7 +684,9 @@ impl<'a> Gen<'a> {
         match self.coll {
             CollSt::Idle => cands.push((w / 2 + 1, Act::CB)),
             CollSt::Pop => cands.push((w * 2, Act::CP)),
-            CollSt::Check => cands.push((w * 2, Act::CC)),
+            // the window between an empty pop and the abandoned-check is where a thread's last
+            // pushes and its exit must be placed: keep it open longer in the exit profile
+            CollSt::Check => cands.push((if self.prof.name == "exit" { w / 3 + 1 } else { w * 2 }, Act::CC)),
             CollSt::Process => cands.push((w * 2, Act::CX)),
         }
     }
@@ -1037,6 +1039,9 @@ pub fn replay(path: &str, out: &mut dyn Write) {
                     Act::CX => g.coll == CollSt::Process,
                 };
                 if !ok {
+                    // the logged continuation is not possible in the real system: that is itself
+                    // a difference between the code and whatever produced the log
+                    let _ = writeln!(g.out, "A 0 0 {} => not-enabled", toks.join(" "));
                     let _ = writeln!(g.out, "#replay-stopped action not enabled in the real system: {}", toks.join(" "));
                     break;
                 }
